@@ -3,6 +3,7 @@ module verif/harness
 go 1.25.0
 
 require (
+	github.com/aead/siphash v1.0.1
 	github.com/btcsuite/btcd v0.0.0
 	github.com/btcsuite/btcd/address/v2 v2.0.0
 	github.com/btcsuite/btcd/btcec/v2 v2.5.0
@@ -19,7 +20,6 @@ require (
 )
 
 require (
-	github.com/aead/siphash v1.0.1 // indirect
 	github.com/btcsuite/go-socks v0.0.0-20170105172521-4720035b7bfd // indirect
 	github.com/davecgh/go-spew v1.1.1 // indirect
 	github.com/decred/dcrd/crypto/blake256 v1.1.0 // indirect
